@@ -366,7 +366,7 @@ def rule_c(ck, R):
         ck.verdict(bad is None, 'C07.c', 'parse_frame:order', R.where('parse_frame'),
                    'header -> plausibility -> payload checksum; the first failure is returned, success needs all three' if bad is None else bad)
     # regp_recv mapping
-    eng = R.engine({'early_ebusy', 'early_erxoverflow'})
+    eng = R.engine({'early_ebusy', 'early_erxoverflow', 'regp_has_hdcrc', 'regp_has_plcrc'})
     ps = R.paths('regp_recv', 'C07.c', eng)
     if ps is not None:
         bad = None
@@ -395,6 +395,8 @@ def rule_c(ck, R):
         #   otherwise                    -> error.id == 0, whatever an earlier call left in the caller's object
         EID = ('f', ('&', ('f', MF, 'error')), 'id')
         nrec = 0
+        ntransport = naccept_serial = 0
+        tbad = None
         for p in ps:
             if p.end != 'return':
                 continue
@@ -412,8 +414,28 @@ def rule_c(ck, R):
                         bad = bad or ('parse_frame may have failed on the path {%s} but error.id is left at %s: regp_process treats the frame as valid and executes it'
                                       % ('; '.join(fmt(c) for c in p.cond_terms() if sym.contains(c, r)), fmt(eid)))
                 elif eid != C(0):
-                    bad = bad or ('a frame that parsed without fault leaves error.id = %s (not reset to 0 for this call): a good frame following a bad one is treated as failed'
-                                  % fmt(eid))
+                    # the one fault that is not parse_frame's: a frame that does not conform to the transport (document 5.1:
+                    # serial channels carry the header checksum) is a header encoding fault
+                    serial = not any(c[0] == 'cmp' and c[1] == '==' and 'ep.type' in fmt(c[2]) and c[3] == C(E['RP_EP_TCP']) for c in p.cond_terms())
+                    nohd = False in [opt_test(c, E['RP_OPT_WITH_HEADER_CRC']) for c in p.cond_terms()]
+                    metas = p.calls('regp_resp_meta')
+                    if serial and nohd and eid == C(EBADMSG) and metas and metas[0].args[1] == C(E['RP_META_EHEADERENC']):
+                        ntransport += 1
+                    else:
+                        bad = bad or ('a frame that parsed without fault leaves error.id = %s (not reset to 0 for this call): a good frame following a bad one is treated as failed'
+                                      % fmt(eid))
+                else:
+                    # accepted: on a serial channel only with a declared header checksum
+                    serial = [c for c in p.cond_terms() if c[0] == 'cmp' and 'ep.type' in fmt(c[2]) and sym.is_c(c[3])]
+                    is_tcp = any(c[1] == '==' and c[3] == C(E['RP_EP_TCP']) for c in serial)
+                    hd = True in [opt_test(c, E['RP_OPT_WITH_HEADER_CRC']) for c in p.cond_terms()]
+                    if not is_tcp:
+                        naccept_serial += 1
+                        if not hd:
+                            tbad = tbad or ('a frame received on a serial channel is accepted under {%s} without the WITH-HEADER-CRC bit having been seen set: '
+                                            'the document (5.1) mandates the header checksum there, and a frame without it is not protected at all - a burst over '
+                                            'the option bits of a valid frame clears the checksum bits, and the remainder is executed as it stands'
+                                            % '; '.join(fmt(c) for c in p.cond_terms() if 'ep.type' in fmt(c) or 'options' in fmt(c))[:200])
             else:
                 nz = [c for c in sinkerr if c[1] == '!=' and c[3] == C(0)]
                 if nz:
@@ -426,6 +448,12 @@ def rule_c(ck, R):
             bad = bad or 'only %d recording paths found' % nrec
         ck.verdict(bad is None, 'C07.c', 'regp_recv:classify', R.where('regp_recv'),
                    'EBADMSG -> META EHEADERENC, EILSEQ -> META EHEADERCRC; at every return error.id is exactly the fault of this call (-rc, the sink error, or 0)' if bad is None else bad)
+        if naccept_serial == 0:
+            ck.broken('C07.d', 'regp_recv:transport', R.where('regp_recv'), 'no accepting path of a serial channel found')
+        else:
+            ck.verdict(tbad is None, 'C07.d', 'regp_recv:transport', R.where('regp_recv'),
+                       'a frame received on a serial channel is accepted only with a declared header checksum (%d accepting paths); one without is a header encoding fault' % naccept_serial
+                       if tbad is None else tbad)
     ps = R.paths('regp_process', 'C07.c')
     if ps is not None:
         bad = None
